@@ -7,6 +7,7 @@ import collections.abc
 import datetime as dtm
 import ipaddress
 import math
+import io
 import os
 import pathlib
 import re
@@ -23,7 +24,7 @@ SCALAR_HINT = {
     "None": None, "Any": typing.Any, "bytes": bytes, "bytearray": bytearray, "date": dtm.date, "time": dtm.time,
     "datetime": dtm.datetime, "timedelta": dtm.timedelta, "UUID": uuid.UUID, "Path": pathlib.Path,
     "IPv4Address": ipaddress.IPv4Address, "Pattern": re.Pattern,
-    "object": object, "LiteralString": typing.LiteralString, "ByteString": typing.ByteString,
+    "BytesIO": io.BytesIO, "IObytes": typing.IO[bytes], "object": object, "LiteralString": typing.LiteralString, "ByteString": typing.ByteString,
     "PurePath": pathlib.PurePath, "PurePosixPath": pathlib.PurePosixPath, "PosixPath": pathlib.PosixPath, "PureWindowsPath": pathlib.PureWindowsPath,
     "PathLike": os.PathLike[str], "IPv6Address": ipaddress.IPv6Address, "IPv4Network": ipaddress.IPv4Network, "IPv6Network": ipaddress.IPv6Network,
     "IPv4Interface": ipaddress.IPv4Interface, "IPv6Interface": ipaddress.IPv6Interface,
@@ -157,6 +158,8 @@ class Node:
     def _make(self) -> Any:
         c = self.c
         if c == "atom":
+            if self.a in univ.STATEFUL_TOKENS:
+                self.value = univ.rep(self.a, self.k)        # streams are read by a dump: a fresh one for every call
             return self.value
         if c in ("dict", "cmap", "defaultdict"):
             d = {kk.make(): vv.make() for kk, vv in zip(self.keys, self.vals)}
@@ -223,6 +226,8 @@ def canon(v: Any) -> Any:
         return ("Pattern", v.pattern, v.flags)
     if t is bytearray:
         return ("bytearray", bytes(v))
+    if t is io.BytesIO:
+        return ("BytesIO", v.getvalue())
     try:
         hash(v)
     except TypeError:
